@@ -48,5 +48,11 @@ F8) # special file copied onto itself through another spelling: the worker remov
     mkfifo p; "$X" p ./p >/dev/null 2>&1
     if [ ! -p p ]; then echo "DEFECT F8: 'xcp p ./p' removed the FIFO p"; exit 1; fi
     echo "F8 ok"; exit 0;;
+F9) # backup counter wrap-around (needs a build without overflow checks, i.e. a release binary; a debug binary of the old tree panics instead)
+    echo new > src.txt; echo old > dst.txt; echo bakMAX > 'dst.txt.~18446744073709551615~'; echo bak0 > 'dst.txt.~0~'
+    "$X" --backup=numbered src.txt dst.txt >/dev/null 2>&1; rc=$?
+    if [ "$(cat 'dst.txt.~0~')" != "bak0" ]; then echo "DEFECT F9: existing backup dst.txt.~0~ was replaced (exit $rc)"; exit 1; fi
+    if [ "$(cat 'dst.txt.~18446744073709551615~')" != "bakMAX" ]; then echo "DEFECT F9: existing backup .~MAX~ was replaced (exit $rc)"; exit 1; fi
+    echo "F9 ok (exit $rc, existing backups untouched)"; exit 0;;
 *) echo "unknown finding $WHICH"; exit 2;;
 esac
